@@ -206,6 +206,15 @@ pub fn run(rep: &Report) {
         }
         rep.nontrivial(format!("aead-{}-{}", ptl, aadl).as_bytes());
     });
+    // lengths around and beyond the file format's chunk size (the primitive itself has no such limit)
+    let big: Vec<usize> = rep.tier.pick(vec![255, 256, 257, 4096, 65535, 65536, 65537, 70000], vec![255, 256, 257, 4095, 4096, 4097, 65535, 65536, 65537, 65552, 70000, 131072, 200000, 1 << 20]);
+    big.par_iter().for_each(|&ptl| {
+        let pt = plaintext(seed, ptl);
+        for aadl in [0usize, 13] {
+            aead_case(rep, &kn[0].0, &kn[0].1, &derive(seed, "c19-aad", aadl), &pt);
+        }
+        rep.nontrivial(format!("aead-big-{}", ptl).as_bytes());
+    });
     rep.sample(json!({"kind":"aead","pt_len":130,"aad_len":40,"key":hx(&kn[0].0),"nonce":hx(&kn[0].1)}));
 
     // (b) alterations
@@ -280,6 +289,37 @@ pub fn run(rep: &Report) {
         }
     }
 
+    // scalars related by the bits that X25519 clamping clears/sets, derived one after the other on one thread
+    // (same public key iff the clamped scalars are equal; no state may be carried between calls)
+    {
+        let base = ids[0].sk;
+        let mut seq: Vec<[u8; 32]> = vec![base];
+        for bit in [0usize, 1, 2, 3, 4, 7, 8, 248, 253, 254, 255] {
+            let mut k = base;
+            k[bit / 8] ^= 1 << (bit % 8);
+            seq.push(k);
+            seq.push(base);
+        }
+        for byte0 in [0x00u8, 0x07, 0x08, 0x0f, 0xf8, 0xff] {
+            let mut k = base;
+            k[0] = byte0;
+            seq.push(k);
+        }
+        for (i, k) in seq.iter().enumerate() {
+            rep.eval(1);
+            let want = r::x25519_base(k);
+            match guarded(|| kestrel_crypto::x25519_derive_public(k)) {
+                Ok(Ok(p)) if p == want => {}
+                other => rep.violation("derive-public-sequence", json!({"kind":"x25519-derive","scalar":hx(k)}), format!("call {} of a sequence of related scalars: x25519_derive_public({}) = {:?}, expected k*G = {}", i, hx(k), other.map(|r| r.map(|p| hx(&p)).map_err(|_| "DhError")), hx(&want))),
+            }
+            // DH against a fixed peer as well
+            let peer = ids[2].pk;
+            if guarded(|| kestrel_crypto::x25519(k, &peer).ok()).ok().flatten() != r::x25519(k, &peer).map(|v| v.to_vec()) {
+                rep.violation("x25519-sequence", json!({"kind":"x25519","scalar":hx(k),"u":hx(&peer),"k_name":"related","u_name":"R"}), format!("call {} of a sequence of related scalars: x25519 differs from RFC 7748", i));
+            }
+            rep.nontrivial(format!("derive-seq-{}", i).as_bytes());
+        }
+    }
     // (e) HKDF
     let shapes: Vec<(&str, Vec<u8>, Vec<u8>, Vec<u8>)> = vec![
         ("empty-salt-info", vec![], derive(seed, "ikm", 32), vec![]),
